@@ -42,15 +42,15 @@ CALLEE = ('on:\n  workflow_call:\n    inputs:\n      need:\n        type: string
           '      nd:\n        type: string\n        required: true\n        default: null\n'
           "      ed:\n        type: string\n        required: true\n        default: ''\n      bd:\n        type: string\n        required: true\n        default:\n"
           "      xr:\n        type: string\n        required: ${{ github.event_name == 'push' }}\n"
-          '    secrets:\n      tok:\n        required: true\n    outputs:\n      out1:\n        value: ${{ jobs.x.outputs.o }}\n'
+          '    secrets:\n      tok:\n        required: true\n    outputs:\n      out1:\n        value: ${{ jobs.x.outputs.o }}\n      out2:\n      out3: {}\n'
           'jobs:\n  x:\n    runs-on: lab-a\n    outputs:\n      o: v\n    steps:\n      - run: echo ${{ vars.NOPE1 }}\n')
 
 
 def caller(tag, label, var):
     return ('on:\n  push:\n  issues:\n    types: [nonexistent%s]\npermissions:\n  bogus%s: read\njobs:\n'
             '  call:\n    uses: ./.github/workflows/callee.yml\n    with:\n      num: notanumber\n      extra%s: 1\n'
-            '  build:\n    runs-on: %s\n    steps:\n      - uses: ./.github/actions/act\n        with:\n          wrong%s: 1\n'
-            '      - run: echo ${{ vars.%s }} ${{ undefined%s }}\n      - run: echo ${{ needs.call.outputs.out1 }}\n'
+            '  build:\n    needs: [call]\n    runs-on: %s\n    steps:\n      - uses: ./.github/actions/act\n        with:\n          wrong%s: 1\n'
+            '      - run: echo ${{ vars.%s }} ${{ undefined%s }}\n      - run: echo ${{ needs.call.outputs.out1 }} ${{ needs.call.outputs.out2 }} ${{ needs.call.outputs.out3 }} ${{ needs.call.outputs.out4 }}\n'
             % (tag, tag, tag, label, tag, var, tag))
 
 
@@ -99,6 +99,15 @@ def extra_layouts():
          'repo/.github/actionlint.yaml': CFG_A}
     g, b, c = 'repo/' + W + 'good.yml', 'repo/' + W + 'bad.yml', 'repo/' + W + 'callee.yml'
     out.append(('ref-call-next-to-good-call', f, ['repo/.git'], [[b, g], [g, b], [b, g, c], [c, b, g], [b, c, g], [g, c, b]]))
+    # 5. a repository nested in a sub-directory of another one (own .git, own config): attributed to the inner one
+    f = {'repo/.github/actionlint.yaml': 'self-hosted-runner:\n  labels: [lab-outer]\nconfig-variables: [outervar]\n',
+         'repo/vendor/inner/.github/actionlint.yaml': 'self-hosted-runner:\n  labels: [lab-inner]\nconfig-variables: [innervar]\n',
+         'repo/' + W + 'o.yml': 'on: push\njobs:\n  j:\n    runs-on: lab-outer\n    steps:\n      - run: echo ${{ vars.OUTERVAR }} ${{ vars.INNERVAR }}\n      - uses: ./.github/actions/act\n',
+         'repo/vendor/inner/' + W + 'i.yml': 'on: push\njobs:\n  j:\n    runs-on: lab-inner\n    steps:\n      - run: echo ${{ vars.OUTERVAR }} ${{ vars.INNERVAR }}\n      - uses: ./.github/actions/act\n',
+         'repo/.github/actions/act/action.yml': ACTION,
+         'repo/vendor/inner/.github/actions/act/action.yml': ACTION.replace('must:', 'other:')}
+    o_, i_ = 'repo/' + W + 'o.yml', 'repo/vendor/inner/' + W + 'i.yml'
+    out.append(('nested-repository', f, ['repo/.git', 'repo/vendor/inner/.git'], [[o_, i_], [i_, o_]]))
     # 4. files outside any repository (no project: null caches), one of them with an invalid local call
     f = {'loose/o1.yml': bad, 'loose/o2.yml': good, 'loose/o3.yml': lab('o3', 'ubuntu-latest')}
     o = ['loose/o1.yml', 'loose/o2.yml', 'loose/o3.yml']
@@ -119,6 +128,7 @@ def sim_module(files, repo_of, prog):
             'RepoOfS == [f \\in FilesS |-> CASE %s]\n' % ' [] '.join('f = "%s" -> "%s"' % (f, repo_of[f]) for f in ids) +
             'ProgS == [f \\in FilesS |-> CASE %s]\n' % ' [] '.join('f = "%s" -> %s' % (f, tla_seq(prog[f])) for f in ids) +
             'NamePrefixS == {%s}\n' % ', '.join('<<"%s", "%s">>' % ab for ab in pref) +
+            'InsideS == {}\n' +
             '=============================================================================\n')
 
 
@@ -258,7 +268,11 @@ def run(ck, tier):
     ck.add_tlc('Linter: all argument orders x interleavings of resolve/register/read/miss-write; Attribution, Isolation', r)
     if r.violated:
         raise Inconclusive('Linter.tla violates %s (model level)' % r.violated)
-    for cfg, inv in (('Linter_prefix.cfg', 'Attribution'), ('Linter_disagree.cfg', 'Isolation')):
+    rn = vplib.run_tlc('LinterMC', 'Linter_nested.cfg', timeout=1800, name='nested')
+    ck.add_tlc('Linter, nested layout (a repository inside a sub-directory of another): Attribution, Isolation', rn)
+    if rn.violated:
+        raise Inconclusive('Linter.tla violates %s on the nested layout (model level)' % rn.violated)
+    for cfg, inv in (('Linter_prefix.cfg', 'Attribution'), ('Linter_disagree.cfg', 'Isolation'), ('Linter_nested_knownfirst.cfg', 'Attribution')):
         g = vplib.run_tlc('LinterMC', cfg, timeout=600)
         ck.add_tlc('Linter vacuity guard %s: must violate %s' % (cfg, inv), g)
         if g.violated != inv:
